@@ -140,8 +140,9 @@ def make_yfuture(wait_code):
 COMPOSITE_LIKE = COMPOSITE_OPS + ('as_completed',)     # operations that may acquire and release any worker of their pool
 
 
-def install_as_completed_probes(courier_worker, courier_utils, orchestrate, pools, workers, alog, kinds):
-  """Family 'scheda' (round 6): orchestrate.as_completed under the scheduler as an OBSERVED SCRIPT of primitive operations.
+def install_as_completed_probes(courier_worker, courier_utils, orchestrate, pools, workers, alog, kinds, released_busy=None):
+  """Family 'scheda' (round 6; since round 11 the log only supplies the ENVIRONMENT'S CHOICES to the Lean program of as_completed, see
+  model_threads): orchestrate.as_completed under the scheduler with its pool-level calls logged.
   Every pool-level call made by the body of as_completed itself (`pool.workers`, `next_idle_worker`, `release_all`,
   `acquired_workers`, `task.is_alive`, `worker.submit`) is logged with its arguments (set iteration orders, shuffles and
   samples included) and preceded by a marker yield 'pstart' — the 'start' step of a primitive operation of the LTS; the
@@ -152,7 +153,7 @@ def install_as_completed_probes(courier_worker, courier_utils, orchestrate, pool
   widx = {id(w): i for i, w in enumerate(workers)}
   WP, CC, Task = courier_worker.WorkerPool, courier_utils.CourierClient, courier_utils.Task
   saved = dict(workers=WP.__dict__['workers'], acquired=WP.__dict__['acquired_workers'], next_idle=WP.next_idle_worker,
-               release_all=WP.release_all, is_alive=Task.__dict__['is_alive'], submit=CC.submit)
+               release_all=WP.release_all, is_alive=Task.__dict__['is_alive'], submit=CC.submit, done=Task.done)
   cur_pool = {}
 
   def probe(entry):
@@ -187,6 +188,11 @@ def install_as_completed_probes(courier_worker, courier_utils, orchestrate, pool
       probe(dict(op='next_idle', p=pidx[id(self)], ws=[widx[id(w)] for w in workers], acq=bool(maybe_acquire)))
     return saved['next_idle'](self, workers, maybe_acquire=maybe_acquire)
 
+  submitted = {}      # tid -> [(worker, task)] submitted by the as_completed of that thread
+
+  def owned(w, pool):  # harness-side read of the shim objects: no yield
+    return w._lock.owner is not None and w.__dict__.get('_wp') is pool  # pylint: disable=protected-access
+
   def m_release_all(self, workers=()):
     if from_ac():
       if isinstance(workers, tuple) and not workers:       # the `finally: worker_pool.release_all()`
@@ -194,6 +200,16 @@ def install_as_completed_probes(courier_worker, courier_utils, orchestrate, pool
       else:
         workers = list(workers)                            # (a set: the callee iterates it in this order)
         probe(dict(op='release_all', p=pidx[id(self)], ws=[widx[id(w)] for w in workers]))
+        # oracle probe (round 11): which workers running a not yet finished task of THIS as_completed does the mid-run release give away?
+        import concurrent.futures as cf
+        t = _CUR['sched'].current()
+        busy = [w for w, task in submitted.get(t.tid if t else -1, []) if task.state is not None and not cf.Future.done(task.state)]
+        before = [w for w in busy if owned(w, self)]
+        r = saved['release_all'](self, workers)
+        lost = sorted({widx[id(w)] for w in before if not owned(w, self)})
+        if lost and released_busy is not None:
+          released_busy.append(dict(p=pidx[id(self)], workers=lost, arg=[widx[id(w)] for w in workers]))
+        return r
     return saved['release_all'](self, workers)
 
   def g_is_alive(self):
@@ -207,8 +223,20 @@ def install_as_completed_probes(courier_worker, courier_utils, orchestrate, pool
       t = _CUR['sched'].current()
       lazy = task.args[0] if getattr(task, 'args', None) else None
       probe(dict(op='submit', p=cur_pool.get(t.tid if t else -1, 0), w=widx[id(self)], task=kinds.get(id(lazy), 'ok')))
+      r = saved['submit'](self, task)
+      submitted.setdefault(t.tid if t else -1, []).append((self, r))
+      return r
     return saved['submit'](self, task)
 
+  def m_done(self):
+    # round 11: `task.done()` polled by the body of as_completed reads a future shared with the transport: a yield point of its
+    # own ('tdone'; the read is the effect of the step), so that the Lean program of as_completed reads the same value
+    s = _CUR.get('sched')
+    if s is not None and s.current() is not None and _sys._getframe(1).f_code is code:  # pylint: disable=protected-access
+      return s.op('tdone', lambda: True, lambda alt: saved['done'](self))
+    return saved['done'](self)
+
+  Task.done = m_done
   WP.workers = property(g_workers)
   WP.acquired_workers = property(g_acquired)
   WP.next_idle_worker = m_next_idle
@@ -220,6 +248,7 @@ def install_as_completed_probes(courier_worker, courier_utils, orchestrate, pool
     WP.workers, WP.acquired_workers = saved['workers'], saved['acquired']
     WP.next_idle_worker, WP.release_all = saved['next_idle'], saved['release_all']
     Task.is_alive, CC.submit = saved['is_alive'], saved['submit']
+    Task.done = saved['done']
   return undo
 
 
@@ -235,6 +264,20 @@ def canon_outcome(res):
   if r.startswith('err:RuntimeError:Failed to connect'):
     return 'disconnected'
   return 'raised'
+
+
+def canon_ac_outcome(res):
+  """Result string of a consumed as_completed -> the model's outcome name."""
+  r = str(res)
+  if r in ('ok', 'closed', 'never-started'):
+    return r
+  if r.startswith('err:TimeoutError') or r.startswith('err:Timeout'):
+    return 'noWorker'
+  if r.startswith('err:RuntimeError') or r.startswith('err:Runtime'):
+    return 'disconnected'
+  return 'raised'
+
+
 ENV_OPS = ('die', 'revive', 'send', 'deliver', 'tick', 'shutdown')
 
 
@@ -297,6 +340,7 @@ def run_real(case, max_steps=4000):
   results = {}
   state = {}
   alog, kinds, undo_probes = {}, {}, None
+  released_busy = []
   saved_threading = courier_utils.threading
   saved_reg = courier_utils._worker_registry  # pylint: disable=protected-access
   had_prop = '_worker_pool' in courier_worker.Worker.__dict__
@@ -352,7 +396,7 @@ def run_real(case, max_steps=4000):
 
     if case.get('fam') == 'scheda':
       from ml_metrics._src.chainables import orchestrate
-      undo_probes = install_as_completed_probes(courier_worker, courier_utils, orchestrate, pools, workers, alog, kinds)
+      undo_probes = install_as_completed_probes(courier_worker, courier_utils, orchestrate, pools, workers, alog, kinds, released_busy)
 
     def safe_get(a):
       if reg._lock.owner is None:  # pylint: disable=protected-access
@@ -481,6 +525,7 @@ def run_real(case, max_steps=4000):
         outcome=outcome, err=err, excs=excs,
         choices=[t for t, _ in sched.choices],
         steps=steps, enabled=enabled, snaps=snaps, opinfo=opinfo, alog={str(k): v for k, v in alog.items()},
+        ac_released_busy=released_busy,
         results=[results.get(t, []) for t in range(len(case['threads']))],
         finished=[state.get(t) == 'finished' for t in range(len(case['threads']))],
         final=dict(locked=final['locked'], owners=final['owners'],
@@ -506,16 +551,32 @@ def run_real(case, max_steps=4000):
 
 # ------------------------------------------------------------------ model side
 
+import os as _os
+# the model is the model of the REPAIRED as_completed (release_all(unused) only for a non-empty set); development aid:
+# VERIF_C20_AC_FIXED=0 replays the unrepaired control flow (F-C20-release-empty-set)
+AC_FIXED = _os.environ.get('VERIF_C20_AC_FIXED', '1') != '0'
+
+
 def model_threads(case, alog=None):
-  """The threads as the model sees them; an `as_completed` operation is replaced by the script of primitive operations
-  its body was observed to perform in the real run (`alog`)."""
+  """The threads as the model sees them.  Round 11: an `as_completed` operation is the PROGRAM `asCompleted` of the product LTS
+  (tasks, ignore_failures, what the consumer does); the pool-level calls its body was observed to make (`alog`) are passed as
+  the prophecy script — it carries the environment's choices (set iteration orders, shuffle, sample); the controller of the
+  model decides which call comes next and accepts the observed one only if the Python semantics allows it.  The `submit`
+  entries of the log are not part of the script (the pieces of `worker.submit` are discovered by the driver); they are
+  compared with the submissions the model made."""
   out = []
   for t, th in enumerate(case['threads']):
     ops = []
     for o in th['ops']:
       if o['op'] == 'as_completed':
-        # (a generator closed before its first next() runs no line of as_completed: an operation that does nothing)
-        ops += [model_op(x) for x in (alog or {}).get(str(t), [])] or [dict(op='next_idle', p=o['p'], ws=[], acq=False)]
+        log = (alog or {}).get(str(t), [])
+        if o['take'] == 0 or not log:
+          # (a generator closed before its first next() runs no line of as_completed: an operation that does nothing)
+          ops.append(dict(op='next_idle', p=o['p'], ws=[], acq=False))
+        else:
+          ops.append(dict(op='as_completed', p=o['p'], tasks=[k != 'ok' for k in o['tasks']], ignore=bool(o['ignore']),
+                          take=o['take'], fixed=bool(case.get('ac_fixed', AC_FIXED)),
+                          script=[model_op(x) for x in log if x['op'] != 'submit']))
       else:
         ops.append(model_op(o))
     out.append(dict(kind=th['kind'], ops=ops))
@@ -584,7 +645,14 @@ def compare(obs, m):
   if obs['outcome'] in ('done', 'deadlock', 'cut'):
     # results of the operations finished so far (model: values of Owner operations only)
     for t, th in enumerate(case['threads']):
-      if th['kind'] != 'pool' or any(o['op'] == 'as_completed' for o in th['ops']):
+      if th['kind'] == 'pool' and any(o['op'] == 'as_completed' for o in th['ops']):
+        # round 11: how as_completed ended (model: the outcome its controller recorded when the finaliser ended)
+        want = [canon_ac_outcome(v) for v in obs['results'][t]]
+        got = [('never-started' if g == 'none' else g) for g in m['results'][t]]
+        if want != got[:len(want)] or (obs['outcome'] == 'done' and want != got):
+          return f'thread {t}: as_completed ended real {want} vs model {got}'
+        continue
+      if th['kind'] != 'pool':
         continue
       want = [(canon_outcome(v) if o['op'] in COMPOSITE_OPS + ('submit',) else v) for o, v in zip(th['ops'], obs['results'][t])]
       got = m['results'][t]
